@@ -66,3 +66,8 @@ add("C05", "fault_enumeration", "ASGI HTTP and PEP 3333 protocol automata over e
     "Range outcome) x GET/HEAD are run to completion on both interfaces and then once per fault point (all points for short sequences, a fixed spread for long ones); the automata must accept the "
     "complete sequence / every faulted prefix, and the exception that propagates must be the producer's own or the injected one.",
     "Trusts the two automata (vf/automata.py, written from the ASGI spec and PEP 3333); user-supplied unrepresentable header values are outside the workload.")
+add("C20", "exploration", "differential bare vs wrapped at the server boundary (status, header multiset, body bytes) + inner-invocation counter + one-header-edit delta + C05 protocol automata on the wrapped output",
+    "Generated inner applications (every response class with several cookies / repeated headers / unknown statuses / 0-1-many chunk bodies / files with ranges, views behind request_response, raw gateway apps "
+    "with list, tuple, generator and custom iterable bodies, apps raising before/after start or mid-body) are run bare and behind identity middleware stacks (depth 1-3), identity decorator stacks and a "
+    "one-header-editing middleware on both interfaces; observations must be equal (modulo the edited header), the inner app must have run exactly once, and errors must keep their type with a prefix output.",
+    "Header comparison is a multiset with case-folded names; folding of repeated non-Set-Cookie headers is a listed known finding.")
